@@ -331,13 +331,15 @@ pub fn check(case: &Case) -> Verdict {
                 let bud = bud.mul(&Rat::from_u64(2));
                 let lo = pick(o.r, &e.m.sub(&bud));
                 let hi = pick(o.r, &e.m.add(&bud));
-                if !got_scale.eq(&lo) && !got_scale.eq(&hi) {
+                // the rule is monotone in the magnitude: any computed
+                // magnitude inside the budget selects a scale between the two
+                if got_scale.cmp(&lo).is_lt() || got_scale.cmp(&hi).is_gt() {
                     fail!(
                         "{}: magnitude {}: expected a unit of scale {}{}, got {}",
                         note,
                         e.m.describe(),
                         lo.describe(),
-                        if lo.eq(&hi) { String::new() } else { format!(" or {}", hi.describe()) },
+                        if lo.eq(&hi) { String::new() } else { format!(" .. {}", hi.describe()) },
                         c.describe_q(o.r, r)
                     );
                 }
@@ -371,7 +373,7 @@ impl Property for C05 {
     }
     fn cases(&self, tier: Tier) -> u64 {
         match tier {
-            Tier::Quick => 60_000,
+            Tier::Quick => 300_000,
             Tier::Thorough => 3_000_000,
         }
     }
